@@ -1,3 +1,4 @@
 import Driver.Util
 import Driver.Session
+import Driver.Credit
 import Driver.Main
